@@ -100,6 +100,7 @@ type ftpPassiveSocket struct {
 	wg        sync.WaitGroup
 	err       error
 	tlsConfig *tls.Config
+	listener  net.Listener
 }
 
 func newPassiveSocket(host string, port int, sessionid string, tlsConfig *tls.Config) (DataSocket, error) {
@@ -140,6 +141,10 @@ func (socket *ftpPassiveSocket) Write(p []byte) (n int, err error) {
 }
 
 func (socket *ftpPassiveSocket) Close() error {
+	// stop listening, also when the client never connected
+	if socket.listener != nil {
+		socket.listener.Close()
+	}
 	if socket.conn != nil {
 		return socket.conn.Close()
 	}
@@ -175,8 +180,12 @@ func (socket *ftpPassiveSocket) GoListenAndServe(sessionid string) (err error) {
 		listener = tls.NewListener(listener, socket.tlsConfig)
 	}
 
+	socket.listener = listener
+
 	go func() {
 		conn, err := listener.Accept()
+		// one data connection per passive socket
+		listener.Close()
 		socket.wg.Done()
 		if err != nil {
 			socket.err = err
